@@ -126,7 +126,7 @@ class Serial:
         return a
 
 
-def make_tree(rng, nslab=3, slab_inds=None, halos_per_slab=None, box=500.0, velz=1234.5, ppd=64, nprev=2, compression=None, gap_prob=0.5, zero_part_prob=0.15, cleaned_away_prob=0.15, merge_prob=0.4, trailing=True, sim='SimA', smallratio=False, root=None, max_np=12, int_header=False, clean_layout=1):
+def make_tree(rng, nslab=3, slab_inds=None, halos_per_slab=None, box=500.0, velz=1234.5, ppd=64, nprev=2, compression=None, gap_prob=0.5, zero_part_prob=0.15, cleaned_away_prob=0.15, merge_prob=0.4, trailing=True, sim='SimA', smallratio=False, root=None, max_np=12, int_header=False, clean_layout=1, big_ints=False):
     root = root or tempfile.mkdtemp(prefix='verif_cat_')
     if slab_inds is None:
         slab_inds = list(range(nslab))
@@ -204,6 +204,8 @@ def make_tree(rng, nslab=3, slab_inds=None, halos_per_slab=None, box=500.0, velz
         clean['N_mainprog'] = rng.integers(0, 1000, (H, nprev)).astype(np.uint32)
         clean['vcirc_max_L2com_mainprog'] = rng.uniform(0, 0.01, (H, nprev)).astype(np.float32)
         clean['sigmav3d_L2com_mainprog'] = rng.uniform(0, 0.01, (H, nprev)).astype(np.float32)
+        if big_ints:  # 64-bit identifiers that no float64 holds exactly (top bit region + odd)
+            _big_ints(raw, clean)
         next_id += H
         truth['slabs'][slab] = dict(raw=raw, clean=clean, parts=parts, cparts=cparts, H=H, cleaned_away=cleaned_away)
         comp = compression
@@ -219,6 +221,15 @@ def make_tree(rng, nslab=3, slab_inds=None, halos_per_slab=None, box=500.0, velz
         )
     truth['halo_fns'] = [os.path.join(zdir, 'halo_info', f'halo_info_{s:03d}.asdf') for s in slab_inds]
     return truth
+
+
+def _big_ints(*tables):
+    hi = {'id': np.uint64(1 << 63), 'haloindex': np.uint64(1 << 62), 'is_merged_to': np.int64(1 << 61), 'haloindex_mainprog': np.int64(1 << 60), 'index_halo': np.int64(1 << 62)}
+    for t in tables:
+        for name, bit in hi.items():
+            if name in t:
+                a = t[name]
+                t[name] = np.where(a >= 0, a | bit | a.dtype.type(1), a).astype(a.dtype) if a.dtype.kind == 'i' else (a | bit | np.uint64(1))
 
 
 def _mk(*parts):
@@ -276,7 +287,7 @@ LC_EXTRA = dict(
 )
 
 
-def make_lc_tree(rng, H=40, box=2000.0, velz=2087.0, ppd=6912, compression=None, gap_prob=0.4, smallratio=False, nprev=3):
+def make_lc_tree(rng, H=40, box=2000.0, velz=2087.0, ppd=6912, compression=None, gap_prob=0.4, smallratio=False, nprev=3, big_ints=False):
     """Light-cone layout: one lc_halo_info.asdf + lc_pid_rv.asdf (already unpacked pos/vel/pid)."""
     root = tempfile.mkdtemp(prefix='verif_lc_')
     zdir = os.path.join(root, 'halo_light_cones', 'SimLC', 'z0.500')
@@ -310,6 +321,8 @@ def make_lc_tree(rng, H=40, box=2000.0, velz=2087.0, ppd=6912, compression=None,
     P = off + 3
     raw['npstartA'] = start
     raw['npoutA'] = npout
+    if big_ints:
+        _big_ints(raw)
     ser = np.arange(1, P + 1)
     parts = dict(pid=ser.astype(np.int64) * 7 + 3, pos=np.stack([ser, ser + 0.25, -ser], axis=1).astype(np.float32), vel=np.stack([-ser, ser * 2, ser + 0.5], axis=1).astype(np.float32))
     write_asdf(_mk(zdir, 'lc_halo_info.asdf'), dict(header=header, data=raw), compression)
